@@ -75,6 +75,13 @@ def cases(rng, tier):
                     for inner_cid in ("same", "other"):
                         out.append({"t": "jar", "client": cid, "signer": signer, "inner_cid": inner_cid, "conflict": None, "iss": iss, "exp": exp,
                                     "inner_ruri": "other" if inner_cid == "other" else "own"})
+    # the same request objects travelling through the pushed-authorization endpoint (pushed, then redeemed by request_uri)
+    for cid in ("c_rs", "c_es", "c_any"):
+        for signer in SIGNERS:
+            for inner_cid in ("absent", "same", "other"):
+                out.append({"t": "jarpar", "client": cid, "signer": signer, "inner_cid": inner_cid, "conflict": None,
+                            "iss": rng.choice(["own", "own", "other", "absent"]), "exp": rng.choice([None, None, "expired", "future"]),
+                            "inner_ruri": rng.choice(["own", "other"]) if inner_cid == "other" else "own"})
     for _ in range(40 * n):
         ops = []
         npush = 0
@@ -158,6 +165,29 @@ def impl(c):
         if "error" in pr:
             return {"r": "refused", "how": "error", "alg": alg, "verifies": verifies}
         return {"r": "inner" if pr.get("state", "").startswith("inner") else "outer", "as": pr.get("client_id"), "alg": alg, "verifies": verifies}
+    if c["t"] == "jarpar":
+        tok, alg, verifies, inner = _object(E, c)
+        cid = c["client"]
+        par = E.s.get_endpoint("pushed_authorization")
+        E.s.context.par_db.clear()
+        clock.CLOCK.t = T0
+        o = {"alg": alg, "verifies": verifies}
+        try:
+            pr = par.parse_request(dict(client_id=cid, client_secret=E.s.context.cdb[cid]["client_secret"], redirect_uri=RED.format(cid), scope="openid",
+                                        state="outer-state", response_type="code", nonce="n", request=tok))
+            if "error" in pr:
+                return dict(o, r="refused", how="push-error")
+            urn = par.process_request(pr)["http_response"]["request_uri"]
+        except Exception as e:
+            return dict(o, r="refused", how="push:" + type(e).__name__)
+        try:
+            pr = az.parse_request(AuthorizationRequest(client_id=cid, request_uri=urn, response_type="code", scope=["openid"], redirect_uri=RED.format(cid),
+                                                       nonce="n").to_dict())
+        except Exception as e:
+            return dict(o, r="refused", how="redeem:" + type(e).__name__)
+        if "error" in pr:
+            return dict(o, r="refused", how="redeem-error")
+        return dict(o, r="inner" if str(pr.get("state", "")).startswith("inner") else "outer", **{"as": pr.get("client_id")})
     # PAR history
     par = E.s.get_endpoint("pushed_authorization")
     E.s.context.par_db.clear()
@@ -197,7 +227,7 @@ def impl(c):
 
 def model_lines(c, obs):
     E = env()
-    if c["t"] == "jar":
+    if c["t"] in ("jar", "jarpar"):
         cid = c["client"]
         other = "c_es" if cid != "c_es" else "c_rs"
         inner = {"absent": "-", "same": enc_str(cid), "other": enc_str(other)}[c["inner_cid"]]
@@ -223,6 +253,8 @@ def model_lines(c, obs):
 def compare(c, obs, outs):
     if c["t"] == "jar":
         return [] if outs[0] == obs["r"] else [f"by value: model={outs[0]} impl={obs}"]
+    if c["t"] == "jarpar":
+        return [] if outs[0] == obs["r"] else [f"request object through PAR: the by-value policy says {outs[0]}, impl={obs}"]
     d = []
     for i, (op, st, o) in enumerate(zip(c["ops"], obs["steps"], outs[1:])):
         f = o.split("\t")
@@ -242,7 +274,7 @@ def compare(c, obs, outs):
 def oracle(c, obs):
     E = env()
     v = []
-    if c["t"] == "jar":
+    if c["t"] in ("jar", "jarpar"):
         if obs["r"] == "inner":
             cid = c["client"]
             reg = E.reg[cid]
@@ -274,12 +306,12 @@ def known_key(c, v, known):
 
 
 def classify(c, obs):
-    if c["t"] == "jar":
-        return f"jar:{obs['r']}"
+    if c["t"] in ("jar", "jarpar"):
+        return f"{c['t']}:{obs['r']}"
     return "par:" + ",".join(sorted({s[0] for s in obs["steps"]}))
 
 
 def nontrivial(c, obs):
-    if c["t"] == "jar":
+    if c["t"] in ("jar", "jarpar"):
         return c["signer"] not in ("own_rs", "own_es") or c["inner_cid"] != "absent"
     return any(o[0] in ("redeem", "tick") for o in c["ops"])
